@@ -1199,7 +1199,8 @@ private:
          , m_col(lp.colVector(_j))
       {
          assert(m_row[m_j] != 0.0);
-         simplifier.addObjoffset(m_obj * m_const / m_row[m_j]);
+         // the objective offset is kept in the sense of the LP (m_obj is negated for maximization problems)
+         simplifier.addObjoffset(lp.obj(m_j) * m_const / m_row[m_j]);
       }
       /// copy constructor
       MultiAggregationPS(const MultiAggregationPS& old)
